@@ -34,7 +34,7 @@ MIN_COUNTERS = dict(quick={'moments_asserted': 10000, 'end_to_end_asserted': 300
 EXHAUSTIVE = dict(quick=True, thorough=False)
 EXHAUSTIVE_NOTE = ('grid {central, forward, backward, complex} x n 1..10 x order 1..10 x ratio in '
                    '{1.2,1.3,1.6,2,2.5,3,4,7.3,10} enumerated completely in both tiers; thorough adds random real ratios')
-RULE = ('complete grid of 3600 rules (see exhaustive_part); per rule all monomials t^d/d!, d = 0..n+order+4*spacing. '
+RULE = ('complete grid of 3600 rules (see exhaustive_part), first with the rule cache exactly as a fresh interpreter provides it, then a third of the grid again after emptying the cache; per rule all monomials t^d/d!, d = 0..n+order+4*spacing. '
         'distinct non-trivial = (method, parity class, n, order, ratio) with >= 2 weights and a numerically '
         'non-singular moment matrix')
 ASSUMPTIONS = ['kappa_d table derived from the definition of each difference quotient (forward, backward, central odd/even, '
@@ -100,11 +100,21 @@ def cases(rng, tier, shard, nshards):
             for order in range(1, 11):
                 for ratio in RATIOS:
                     if k % nshards == shard:
-                        yield dict(method=method, n=n, order=order, ratio=ratio, grid=True)
+                        yield dict(method=method, n=n, order=order, ratio=ratio, grid=True, clear=False)
+                    k += 1
+    # second pass over a third of the grid with the rule cache emptied first: the rule must be right both from the
+    # cache state a fresh interpreter starts with (first pass: nothing is cleared before it) and when recomputed
+    k = 0
+    for method in METHODS:
+        for n in range(1, 11):
+            for order in range(1, 11):
+                for ratio in RATIOS:
+                    if k % nshards == shard and (k // nshards) % 3 == 0:
+                        yield dict(method=method, n=n, order=order, ratio=ratio, grid=True, clear=True)
                     k += 1
     for i in range(BUDGET[tier] // nshards):
         yield dict(method=str(rng.choice(METHODS)), n=int(rng.integers(1, 11)), order=int(rng.integers(1, 11)),
-                   ratio=float(np.exp(rng.uniform(math.log(1.05), math.log(10.0)))), grid=False)
+                   ratio=float(np.exp(rng.uniform(math.log(1.05), math.log(10.0)))), grid=False, clear=bool(rng.random() < 0.3))
 
 
 def run_case(case, ctx):
@@ -112,7 +122,11 @@ def run_case(case, ctx):
     from numdifftools import finite_difference as fdm
     from numdifftools.finite_difference import LogRule
     method, n, order, ratio = case['method'], case['n'], case['order'], case['ratio']
-    fdm.FD_RULES.clear() if (n + order) % 7 == 0 else None     # both cold and warm cache paths
+    if case.get('clear'):
+        fdm.FD_RULES.clear()
+        ctx.count('rules_recomputed_after_clearing_the_cache')
+    else:
+        ctx.count('rules_taken_with_the_cache_as_found')
     try:
         rule_obj = LogRule(n=n, method=method, order=order)
         w = np.asarray(rule_obj.rule(ratio), dtype=float)
